@@ -89,6 +89,64 @@ def runPath (rowS op pathS valS extS implS : String) : Result :=
     else ⟨"B", s!"unknown path op {op}"⟩
   | _, _ => ⟨"B", s!"cannot parse row or path: {rowS}"⟩
 
+mutual
+  /-- Equality of JSON trees up to the order of members (a Go map prints its keys sorted). -/
+  def jvSame : Nat → JV → JV → Bool
+    | 0, _, _ => true
+    | _ + 1, .null, .null => true
+    | _ + 1, .bool a, .bool b => a == b
+    | _ + 1, .num a, .num b => a == b
+    | _ + 1, .str a, .str b => a == b
+    | f + 1, .arr a, .arr b => a.toList.length == b.toList.length && (a.toList.zip b.toList).all fun p => jvSame f p.1 p.2
+    | f + 1, .obj a, .obj b =>
+      let la := (LineSpec.normDup a).toList
+      let lb := (LineSpec.normDup b).toList
+      la.length == lb.length && la.all fun kv =>
+        match lb.find? (fun kw => kw.1 == kv.1) with
+        | some kw => jvSame f kv.2 kw.2
+        | none => false
+    | _ + 1, _, _ => false
+end
+
+/-- Key-by-key navigation of the PRINTED document: through objects only. -/
+def navigateDoc : JV → List Bytes → Option JV
+  | v, [] => some v
+  | .obj ms, k :: ks =>
+    match LineSpec.lookupJV (LineSpec.normDup ms) k with
+    | some v => navigateDoc v ks
+    | none => none
+  | _, _ :: _ => none
+
+/-- pathdoc \t C18 \t <hex of row.String()> \t <hex path> \t <found <hex of the Value's JSON> | absent>: what a
+    dotted path finds against key-by-key navigation of the document as the row PRINTS it — an oracle that needs
+    neither the model of rows nor the harness's encoding of them. Only what navigation of the printed document
+    finds is demanded of the path (hidden cells are not printed). -/
+def runPathDoc (docS pathS implS : String) : Result :=
+  if implS.startsWith "panic" then ⟨"P", s!"pathdoc {pathS}: {implS} violates C18: key=panic"⟩ else
+  match unhexTok docS, unhexTok pathS with
+  | some doc, some path =>
+    let (ms, okDoc) := Json.unmarshal doc
+    if !okDoc then ⟨"X", "the row does not print as one object"⟩ else
+    match navigateDoc (.obj ms) (splitDots path) with
+    | none => ⟨"S", ""⟩
+    | some dv =>
+      match toks implS with
+      | ["found", h] =>
+        (match unhexTok h with
+         | some js =>
+           -- the value's own JSON, parsed as the member of a wrapper object
+           let (wm, okW) := Json.unmarshal ([0x7B, 0x22, 0x76, 0x22, 0x3A] ++ js ++ [0x7D])
+           (match okW, LineSpec.lookupJV wm [0x76] with
+            | true, some rv =>
+              if jvSame 64 dv rv then ⟨"S", ""⟩
+              else ⟨"P", s!"pathdoc {pathS} on {docS}: the path finds {h}, navigation of the printed document finds another value violates C18: key=path-differs-from-printed-document"⟩
+            | _, _ => ⟨"X", "the value found does not print as JSON"⟩)
+         | none => ⟨"B", "cannot parse pathdoc value"⟩)
+      | ["absent"] => ⟨"P", s!"pathdoc {pathS} on {docS}: the path finds nothing, navigation of the printed document finds a value violates C18: key=path-misses-printed-member"⟩
+      | ["unprintable"] => ⟨"X", "the value found does not print"⟩
+      | _ => ⟨"B", s!"cannot parse pathdoc observation: {implS}"⟩
+  | _, _ => ⟨"B", "cannot parse pathdoc case"⟩
+
 /-- getter \t C17 \t <row Val> \t <getter> \t K:<key> \t <ext> \t <impl Dyn | panic …>: a typed getter
     against the model; C17's oracle: no panic, and the result is of the getter's own type (the value or
     the zero value — absent or unconvertible data never surface any other way). -/
